@@ -52,7 +52,7 @@ def main():
             print("baseline:", result["baseline"])
         for c in checks:
             t = time.time()
-            r = sh("cd %s && VERIF_REPO=%s ./run %s %s" % (VERIF, REPO, c, tier))
+            r = sh("cd %s && VERIF_EVIDENCE_DIR=%s/.work/seed-evidence VERIF_REPO=%s ./run %s %s" % (VERIF, VERIF, REPO, c, tier))
             sigs = sorted(set(re.findall(r"VIOLATION property=\S+ replay=\S+ signature=(\S+)", r.stdout)))
             build_failed = "BUILD-FAILED" in r.stderr
             result["checks"][c] = {"exit": r.returncode, "signatures": sigs, "wall_s": round(time.time() - t, 1), "build_failed": build_failed}
